@@ -352,6 +352,7 @@ func HTMLEscape(dst *bytes.Buffer, src []byte) {
 func Valid(data []byte) bool {
 	var v interface{}
 	decoder := NewDecoder(bytes.NewReader(data))
+	decoder.UseNumber() // validity is about the grammar, not about float64's range
 	err := decoder.Decode(&v)
 	if err != nil {
 		return false
